@@ -641,10 +641,18 @@ def discovery_case(res, spec, idx, tier):
             prov = type("Provider%d" % idx, (), ns)()
             machine = create_machine(copy.deepcopy(cfg), logic_providers=[prov])
         else:
-            ns = {}
+            # the methods are spread over the subclass itself, an intermediate subclass and mixins on
+            # either side of MachineLogic in the bases: all of them are methods of the instance
+            parts = {"own": {}, "mid": {}, "mixin_before": {}, "mixin_after": {}}
             for (kind, cn), f in impls.items():
-                ns[f.__name__] = _as_method(kind, f)
-            logic = type("Logic%d" % idx, (MachineLogic,), ns)()
+                parts[rng.choice(sorted(parts))][f.__name__] = _as_method(kind, f)
+            mid = type("Mid%d" % idx, (MachineLogic,), parts["mid"])
+            mix_b = type("MixB%d" % idx, (), parts["mixin_before"])
+            mix_a = type("MixA%d" % idx, (), parts["mixin_after"])
+            logic = type("Logic%d" % idx, (mix_b, mid, mix_a), parts["own"])()
+            for k_, v_ in parts.items():
+                if v_:
+                    res.count("discovery.subclass-methods-on." + k_)
             machine = create_machine(copy.deepcopy(cfg), logic=logic)
     except ImplementationMissingError as e:
         res.count("discovery.missing-reported")
